@@ -1383,6 +1383,21 @@ class FlipMVD(ADEVPrimitive):
 flip_mvd = FlipMVD()
 
 
+def _enumerated_branch(kdual):
+    """Continuation for one enumerated outcome: a `Dual` in, (primal, tangent) out.
+
+    `kdual` takes and returns `Dual`s; `modular_vmap` maps arrays, so the
+    outcome is wrapped with its (discrete, hence zero) tangent inside the map.
+    """
+
+    def branch(outcome):
+        out_dual = kdual(Dual(outcome, _discrete_zero_tangent(outcome)))
+        (out_primal,), (out_tangent,) = Dual.tree_unzip(out_dual)
+        return out_primal, out_tangent
+
+    return branch
+
+
 @Pytree.dataclass
 class FlipEnumParallel(ADEVPrimitive):
     def sample(self, *args):
@@ -1405,10 +1420,7 @@ class FlipEnumParallel(ADEVPrimitive):
         (p_primal,) = Dual.tree_primal(dual_tree)
         (p_tangent,) = Dual.tree_tangent(dual_tree)
         support = jnp.array([True, False])
-        ret_primals, ret_tangents = modular_vmap(kdual)(
-            (support,),
-            (_discrete_zero_tangent(support)),
-        )
+        ret_primals, ret_tangents = modular_vmap(_enumerated_branch(kdual))(support)
 
         def _inner(p, ret):
             return jnp.sum(jnp.array([p, 1 - p]) * ret)
@@ -1447,9 +1459,7 @@ class CategoricalEnumParallel(ADEVPrimitive):
         (probs_primal,) = Dual.tree_primal(dual_tree)
         (probs_tangent,) = Dual.tree_tangent(dual_tree)
         idxs = jnp.arange(len(probs_primal))
-        ret_primals, ret_tangents = modular_vmap(kdual)(
-            (idxs,), (_discrete_zero_tangent(idxs),)
-        )
+        ret_primals, ret_tangents = modular_vmap(_enumerated_branch(kdual))(idxs)
 
         def _inner(probs, primals):
             return jnp.sum(jax.nn.softmax(probs) * primals)
